@@ -39,6 +39,9 @@ CLAIMED = {
     "C07": ("proof", "contract-based deductive verification: scalar VCs generated from the real AST (pyvc) and discharged by z3/cvc5 over the reals with axiomatised exp/log; native run-time contract monitoring over a parameter catalogue as bounded stand-in for round-off behaviour",
             "Proved for all parameter values (over the reals): every sampler of Float (uniform / log / reverse-log), Integer (uniform / log) and Quantized returns a member of its domain for any value the random generator may return; Integer.cast keeps members; LogScaling is inverse; scale_from_zero_one and the continuous / integer encoders map the unit interval (incl. the EPS slack) into the bounds, _round_to_int always lands inside the bounds, and to_ndarray decodes back. Bounded (native, floats): ~170 domains with hostile bounds x 11 unit-cube points: decoded values are members, encodings lie in the unit cube, round trip to 1e-7, samples and casts are members, JSON round trip encodes identically.",
             "A-REAL / A-TRANSC for the proved part (round-off is only seen by the native catalogue); RandomState ranges trusted; categorical / ordinal / finite-range encoders and HyperparameterRangesImpl are only in the native catalogue.", "5/C07"),
+    "C06": ("proof", "contract-based deductive verification: VCs from the real AST (pyvc), z3/cvc5; symbolic sets for the exclusion list; bounded symbolic execution for the imputation of initial points",
+            "Proved for all values: user-supplied defaults are cast into their domain, ExclusionList contains / add / exhausted, initial points are served first-in-first-out, random sampling never returns an excluded configuration (100-draw loop unrolled), the scheduler's post-processing returns every key of the space with constants unchanged and values cast to the domain type, and the samplers / casts of C07. Bounded: imputation and de-duplication of <= 3 initial points. F6 (None before a finite space is used up) is a recorded known finding.",
+            "Contract configuration space = {integer x, float lr, constant}; match strings injective (str(int); '%.6e' assumed collision-free); HyperparameterRanges.random_config assumed to return members (C07); model-based candidate generation (GP / HyperTune / DEHB / PBT explore), grid search and restrict_configurations are not covered.", "5/C06"),
     "C04": ("proof", "contract-based deductive verification: VCs generated from the real AST (pyvc) with loop invariants and modular callee contracts, discharged by z3/cvc5; bounded-shape stand-in for the cost-aware variant and for witnesses",
             "Unbounded verification conditions (rung contents of any length, 0..3 rungs) for PromotionRungSystem (find/mark/schedule/add/report/remove) and PASHA's resource cap in on_task_schedule, from /repo's source on every run; cost-aware eligibility bounded (<=4 entries).",
             "A-REAL; SortedList contract trusted; number of rungs concrete in proof units; cost values non-negative; PASHA ranking/epsilon logic and DyHPO not covered; pyvc encoding and SMT solvers trusted.", "5/C04"),
